@@ -287,7 +287,7 @@ def h_text2nc(T, L, P):
         lts = [0.0, 6.0][:L]
         src = MI("in.txt", common.int_array(S, times), S.vector(lts), common.locations(ids, lats, lons, elevs),
                  obs=arrs["obs"], fcst=arrs["fcst"], pit=arrs["pit"], ensemble=ens,
-                 thresholds=S.const([1.0, 5.0]), threshold_scores=cdf, quantiles=S.const([0.1, 0.9]), quantile_scores=xq,
+                 thresholds=S.const([5.0, -1.0]), threshold_scores=cdf, quantiles=S.const([0.9, 0.1]), quantile_scores=xq,   # reader's set order: not ascending
                  others={"extra": arrs["extra"], "pit": arrs["pit"]},
                  variable=var.Variable("Precip", "$mm$", x0=0.0, x1=None))
         out = WDataset()
@@ -321,9 +321,9 @@ def h_text2nc(T, L, P):
         same_var("lat", S.vector(lats))
         same_var("lon", S.vector(lons))
         same_var("altitude", S.vector(elevs))
-        same_var("threshold", S.const([1.0, 5.0]))
+        same_var("threshold", S.const([5.0, -1.0]))
         same_var("cdf", cdf)
-        same_var("quantile", S.const([0.1, 0.9]))
+        same_var("quantile", S.const([0.9, 0.1]))
         same_var("x", xq)
         same_var("extra", arrs["extra"])
         same_var("pit", arrs["pit"])
